@@ -384,8 +384,9 @@ bool Directory::move(const String& from, const String& to)
 		return true;
 	if(errno == EXDEV) // different file systems: copy and del
 	{
-		copy(from, dst);
-		remove(from);
+		if(!copy(from, dst)) // keep the source unless the copy is complete
+			return false;
+		return remove(from);
 	}
 	return false;
 }
